@@ -2,6 +2,7 @@ package main
 
 import (
 	"bytes"
+	"errors"
 	"fmt"
 	"io"
 	"math/rand"
@@ -31,6 +32,8 @@ type c11plan struct {
 	At       int    // operation index (client side) or byte count (peerclose)
 	At2      int    // second fault (double)
 	Yield    int
+	CloseErr bool // the stream's Close reports an error although it closes
+	Blocking bool // the disconnect callback blocks until every call in flight has returned
 	describe string
 }
 
@@ -67,6 +70,9 @@ func c11run(p c11plan, seed int64) c11obs {
 		a.ReadChunk = func(rem int) int { return 1 + rrng.Intn(fr) }
 	}
 	a.Yield = p.Yield
+	if p.CloseErr {
+		a.CloseErr = errors.New("harness: close reported an error")
+	}
 	var ep qnet.EndPoint
 	var faultHit int32
 	// server -> client byte accounting for peerclose / earlyreply
@@ -225,7 +231,14 @@ func c11run(p c11plan, seed int64) c11obs {
 
 	ep = qnet.NewEndPoint(a)
 	client := bus.NewClient(bus.NewChannel(ep, bus.DefaultCap()))
-	client.OnDisconnect(func(err error) { atomic.AddInt32(&obs.callbacks, 1) })
+	callsReturned := make(chan struct{})
+	client.OnDisconnect(func(err error) {
+		atomic.AddInt32(&obs.callbacks, 1)
+		if p.Blocking {
+			// user code may block here, e.g. until the work that was in flight has been cleaned up
+			<-callsReturned
+		}
+	})
 	cancelSub, events, _ := client.Subscribe(c11svc, c11obj, 200)
 	_ = cancelSub
 	evDone := make(chan struct{})
@@ -262,7 +275,7 @@ func c11run(p c11plan, seed int64) c11obs {
 	}
 	close(start)
 	callsDone := make(chan struct{})
-	go func() { wg.Wait(); close(callsDone) }()
+	go func() { wg.Wait(); close(callsDone); close(callsReturned) }()
 	if stall {
 		go func() {
 			select {
@@ -485,7 +498,7 @@ func c11real(c *wk.Ctx, i int, rng *rand.Rand) {
 }
 
 func c11(c *wk.Ctx) {
-	c.Note("rule", "fault enumeration over one scenario: a real bus.Client on a harness stream, OnDisconnect callback, one subscription, K in {1,3,8} concurrent calls answered by a scripted peer (one event, then each reply). The fault-free run counts the client's I/O operations (reads per fragment, one write per frame); plans: a fault (EOF, reset, short count + error; sticky) at every operation index, peer close after every byte count of its output, local Close() at every operation, a second fault at a later operation (thorough), a peer that stops reading after every byte count of the client's output (8-byte buffer: a Send is blocked mid-write) followed by a local Close() or a peer close, and the early-reply schedule (Send returns only after the reply was consumed by the reader); each under whole-read and fragmented-read delivery; stream real = the same oracle over unix and tcp with the real server: 1-6 calls parked inside the method body, then Server.Terminate() or the client closing its session. Oracle: every call returns (quiescence detector), success only with its own reply; without a fault every call succeeds; after the fault later calls fail, the events channel is closed, the disconnect callback ran exactly once. Distinct non-trivial = distinct plans whose fault was actually reached while a call or the subscription was pending.")
+	c.Note("rule", "fault enumeration over one scenario: a real bus.Client on a harness stream, OnDisconnect callback, one subscription, K in {1,3,8} concurrent calls answered by a scripted peer (one event, then each reply). The fault-free run counts the client's I/O operations (reads per fragment, one write per frame); plans: a fault (EOF, reset, short count + error; sticky) at every operation index, peer close after every byte count of its output, local Close() at every operation, a second fault at a later operation (thorough), a peer that stops reading after every byte count of the client's output (8-byte buffer: a Send is blocked mid-write) followed by a local Close() or a peer close, and the early-reply schedule (Send returns only after the reply was consumed by the reader); each under whole-read and fragmented-read delivery, a quarter with a stream whose Close reports an error, a third with a disconnect callback that blocks until the calls in flight have returned; stream real = the same oracle over unix and tcp with the real server: 1-6 calls parked inside the method body, then Server.Terminate() or the client closing its session. Oracle: every call returns (quiescence detector), success only with its own reply; without a fault every call succeeds; after the fault later calls fail, the events channel is closed, the disconnect callback ran exactly once. Distinct non-trivial = distinct plans whose fault was actually reached while a call or the subscription was pending.")
 	type cfg struct{ K, Frag int }
 	cfgs := []cfg{{1, 0}, {1, 7}, {3, 0}, {3, 5}}
 	if c.Thorough() {
@@ -538,8 +551,10 @@ func c11(c *wk.Ctx) {
 	c.Cases("plan", len(plans)*reps, func(i int, rng *rand.Rand) {
 		p := plans[i%len(plans)]
 		p.Yield = (i / len(plans)) % 3
+		p.CloseErr = rng.Intn(4) == 0
+		p.Blocking = rng.Intn(3) == 0
 		obs := c11run(p, rng.Int63())
-		detail := map[string]interface{}{"plan": p.String(), "results": obs.results, "callbacks": obs.callbacks, "events": obs.eventsEnd, "late_call": obs.lateCall, "fault_reached": obs.faultHit}
+		detail := map[string]interface{}{"plan": p.String(), "close_reports_error": p.CloseErr, "blocking_disconnect_callback": p.Blocking, "results": obs.results, "callbacks": obs.callbacks, "events": obs.eventsEnd, "late_call": obs.lateCall, "fault_reached": obs.faultHit}
 		key := func(k string) string { return k + "/fault=" + p.Kind }
 		if obs.verdict == stuck.Stuck {
 			detail["dump"] = clipDump(obs.dump)
